@@ -360,11 +360,16 @@ func (c *minecraftConn) bufferPacket(packet proto.Packet, canQueue bool) (err er
 		}
 	}()
 	if canQueue {
+		// Hold c.mu across the queue-or-write decision and the write itself.
+		// SetState/SetOutboundState switch the encoder state and release (then drop)
+		// the queue under c.mu; releasing the lock in between lets a packet be pushed
+		// into an already released queue (lost) or reach the encoder after it left
+		// the PLAY state (encode error, connection closed).
+		// Unlocks before the deferred closeOnWriteErr above runs.
 		c.mu.Lock()
-		playPacketQueue := c.playPacketQueue
-		c.mu.Unlock()
-		verifhook.Point("pq.readptr", "active", playPacketQueue != nil)
-		queued, queueErr := playPacketQueue.Queue(packet)
+		defer c.mu.Unlock()
+		verifhook.Point("pq.readptr", "active", c.playPacketQueue != nil)
+		queued, queueErr := c.playPacketQueue.Queue(packet)
 		if queueErr != nil {
 			verifhook.Event("pq.overflow")
 			return queueErr
